@@ -124,7 +124,8 @@ def finish(pid, pmod, tier, seed, results, wall):
     from pyvc.replay import run_replay
     known = [k for k in load_known() if k['property'] == pid]
     os.makedirs(os.path.join(VERIF, 'replays'), exist_ok=True)
-    os.makedirs(os.path.join(VERIF, 'evidence'), exist_ok=True)
+    evdir = os.environ.get('PYVC_EVIDENCE_DIR') or os.path.join(VERIF, 'evidence')
+    os.makedirs(evdir, exist_ok=True)
     faults, undecided, violations, known_hits = [], [], [], []
     all_obls, functions, trusted, dropped, bounded = [], {}, {}, {}, []
     cc_total = {'witnesses': 0, 'checked': 0}
@@ -270,7 +271,7 @@ def finish(pid, pmod, tier, seed, results, wall):
         'wall_s': round(wall, 2),
         'violations': len(violations),
     }
-    with open(os.path.join(VERIF, 'evidence', f'{pid}.json'), 'w') as fh:
+    with open(os.path.join(evdir, f'{pid}.json'), 'w') as fh:
         json.dump(ev, fh, indent=1, default=str)
     status = 0
     if violations:
